@@ -870,6 +870,9 @@ class Interp:
         return self.index(base, idx, node)
 
     def index(self, base, idx, node=None):
+        if isinstance(idx, Concat) and not isinstance(base, (list, tuple, dict)):
+            # a[concatenate([i, j])] == concatenate([a[i], a[j]])
+            return Concat([self.index(base, p, node) for p in idx.parts])
         if isinstance(idx, Idx):
             if isinstance(base, (Field,)):
                 return self.gather(base, idx)
@@ -1068,6 +1071,12 @@ class Interp:
                 raise Unsupported("mean over axis of a field")
         if isinstance(recv, (Vec2, Cols)) and name in ("squeeze", "copy"):
             return recv
+        if name in ("ravel", "flatten") and kwargs.get("order", args[0] if args else "C") == "F":
+            # column-major flattening of an (n, 2) index array: first column, then second column
+            if isinstance(recv, Index2):
+                return Concat([recv.c0, recv.c1])
+            if isinstance(recv, Field) and recv.kind == "index" and recv.comps == 2:
+                return Concat([Idx(f"{recv.name}0", recv.space, "site"), Idx(f"{recv.name}1", recv.space, "site")])
         if isinstance(recv, Vec2) and name == "sum" and kwargs.get("axis") == 1:
             return recv.x + recv.y
         if isinstance(recv, Pair) and name == "mean" and kwargs.get("axis") == 1:
@@ -1177,6 +1186,19 @@ class Interp:
         if not isinstance(seq, (list, tuple)):
             raise Unsupported("concatenate of a non-literal sequence")
         return Concat(list(seq))
+
+    def x_numpy_tile(self, a, k):
+        reps = a[1] if len(a) > 1 else k.get("reps")
+        if isinstance(reps, int) and not isinstance(reps, bool) and reps >= 1 and not isinstance(a[0], (Field,)) or \
+                (isinstance(reps, int) and isinstance(a[0], Field) and a[0].comps == 1):
+            return Concat([a[0]] * reps) if reps > 1 else a[0]
+        raise Unsupported("np.tile outside the 1-d repetition idiom")
+
+    def x_numpy_hstack(self, a, k):
+        return self.x_numpy_concatenate(a, k)
+
+    def x_numpy_column_stack(self, a, k):
+        return self.x_numpy_concatenate(a, k)
 
     def x_numpy_ones(self, a, k):
         if a and isinstance(a[0], Sym) and a[0] == Sym():
